@@ -73,6 +73,10 @@ def _slim(t):
     return dict(t, ns=tok.NONE) if t["ns"] == _NS_HTML else t
 
 
+_REUSED = {}
+_E2E_CALLS = [0]
+
+
 def e2e(tokens, lab, omit, strictdoc):
     """Serialize the stream for real with output encoding `lab.label`, parse the bytes back for real.
     Returns (filter trace, record for Trace_EncodeRefs, info)."""
@@ -92,7 +96,14 @@ def e2e(tokens, lab, omit, strictdoc):
            "out": [_slim(t) for t in l1["out"]], "raised": False, "encOk": False, "diff": "none", "nchunks": len(un), "chunks": []}
     info = {"label": lab.label, "omit": omit, "path": "none", "bytes": None, "err": None}
     try:
-        enc = list(HTMLSerializer(omit_optional_tags=omit).serialize(iter(copy.deepcopy(tokens)), lab.label))
+        # every other round trip goes through a serializer object that already rendered other documents with other
+        # encodings (the property must hold for any HTMLSerializer, not only a fresh one)
+        _E2E_CALLS[0] += 1
+        if _E2E_CALLS[0] % 2:
+            ser = _REUSED.setdefault(omit, HTMLSerializer(omit_optional_tags=omit))
+        else:
+            ser = HTMLSerializer(omit_optional_tags=omit)
+        enc = list(ser.serialize(iter(copy.deepcopy(tokens)), lab.label))
     except UnicodeEncodeError:
         rec["raised"] = True
         return l1, rec, info
